@@ -163,7 +163,7 @@ PROPS = {
         "assumed": ["stored states satisfy 1 <= version <= epoch of the state (precondition of the segment: get_marker_versions needs start <= end <= epoch)"],
     },
     "C10": {
-        "verus": [("directory_publish", ["Directory.publish__tail", "Directory.publish__after_commit", "Azks.get_latest_epoch"]), ("tree_node", [TN + "get_appropriate_tree_node_from_storage", TN + "determine_node_to_get", "TreeNode.get_from_storage", "TreeNode.get_child_label", "TreeNode.get_child_node"])],
+        "verus": [("directory_publish", ["Directory.publish__tail", "Directory.publish__after_commit", "Azks.get_latest_epoch"]), ("tree_node", [TN + "get_appropriate_tree_node_from_storage", TN + "determine_node_to_get", "TreeNode.get_from_storage", "TreeNode.get_child_label", "TreeNode.get_child_node", "TreeNode.write_to_storage"])],
         "search": True,
         "always_search": True,
         "bounded_search": [{"obligation": "replay/c10#single_fault_enumeration",
@@ -247,8 +247,8 @@ PROPS = {
     "C11": {
         "verus": [("tree_node", [TN + "determine_node_to_get", TN + "get_appropriate_tree_node_from_storage", TN + "write_to_storage", "TreeNode.write_to_storage", "lemma_rot"]),
                   ("manager", [SM + "commit_transaction", SM + "tic_toc", SM + "increment_metric", "DbRecord.transaction_priority"]),
-                  "azks_insert", ("directory_lookup", ["Directory.get_lookup_info", "Directory.build_lookup_info", "get_marker_version", "Azks.get_latest_epoch", "Directory.key_history__head", "lemma_mask_is_filter"])],
-        "scope": "partial, record level: TreeNode::write_to_storage writes exactly {label, latest: self, previous: as-of(stored, epoch-1) or None when new}; rotation lemma: that record still "
+                  "azks_insert", ("directory_lookup", ["Directory.get_lookup_info", "Directory.build_lookup_info", "get_marker_version", "Azks.get_latest_epoch", "Directory.key_history__head", "lemma_mask_is_filter", "Directory.poll_for_azks_changes"])],
+        "scope": "partial, record level: TreeNode::write_to_storage writes exactly {label, latest: self, previous: as-of(stored, epoch-1) or None when new}, and concludes 'no previous version' only from a NotFound answer (any other read failure fails the write); the poller of a cached instance compares the storage's epoch with the epoch the instance SERVES (a read through the cache), so an instance whose cache was filled before the epoch record arrived does flush it (last sentence of the property); rotation lemma: that record still "
                  "serves the as-of-(E) node at E and serves the new node at E+1; readers select by target epoch; the batch a commit hands to the database is non-empty only with the epoch "
                  "record last (else Err before any database write); Azks has the lowest commit priority; write discipline of the recursive batch insertion "
                  "(recursive_batch_insert_nodes: sequential branch, spawned task body and join): a node is written as brand new - dropping the previous-epoch state - only if it was constructed "
@@ -311,7 +311,8 @@ PROPS = {
         "assumed": [],
     },
     "C05": {
-        "verus": [("verify_base", ["verify_membership", "verify_nonmembership", "NodeLabel.value", "NodeLabel.root", "NodeLabel.new"]), "trie_lemmas", "azks_proofs"],
+        "verus": [("verify_base", ["verify_membership", "verify_nonmembership", "NodeLabel.value", "NodeLabel.root", "NodeLabel.new"]), "trie_lemmas", "azks_proofs",
+                  ("node_label", ["get_bit_from_slice", "NodeLabel.get_bit_at", "NodeLabel.get_prefix", "NodeLabel.is_prefix_of", "NodeLabel.get_longest_common_prefix", "NodeLabel.get_prefix_ordering", "Configuration for WhatsAppV1Configuration.empty_label", "Configuration for ExperimentalConfiguration.empty_label"])],
         "kani": ["c05"],
         "verus_thorough": ["node_label"],
         "search": True,
@@ -323,7 +324,7 @@ PROPS = {
                  "the verifier's non-membership facts prove that the queried label is NOT a leaf of T (also for an anchor at the root). Completeness of server-side generation is not decided.",
         "trusted": ["T4 configuration hashes are deterministic functions of their byte inputs (uninterpreted); collision resistance enters only as explicit hypotheses of the meaning lemmas, not the contracts",
                     "the meaning lemmas model tries in which every interior node has two children (a root with a single child - all leaves sharing the first bit - is not modelled)",
-                    "NodeLabel::is_prefix_of / get_longest_common_prefix contracts are proved in unit node_label (C17)"],
+                    "the label operations both sides rely on (get_bit_at, get_prefix, is_prefix_of, get_longest_common_prefix, get_prefix_ordering, empty_label) are proved equal to their bit-string meaning in unit node_label, which this check runs too"],
         "assumed": [],
     },
     "C17": {
